@@ -35,8 +35,11 @@ def reference(spec, backend, cache):
 def gen_history(rng, tier):
     k = rng.randint(2, 4)
     specs = []
+    # a third of the histories: all timelines meet at one calendar day (first of a year / month, a month end, a leap day) — shared domain ends at
+    # different spans, so that whatever the axis code remembers about an instant from one timeline is asked for again by another
+    anchor = rng.choice([(2021, 1, 1), (2000, 1, 1), (2020, 12, 31), (1996, 2, 29), (2024, 3, 1), (1970, 1, 1), (1969, 12, 31)]) if rng.random() < 0.5 else None
     while len(specs) < k:
-        s = TG.gen_spec(rng, "quick")
+        s = TG.gen_spec(rng, "quick", anchor=anchor)
         if s["kind"] == "time":
             continue
         if len(s["data"]) > 12:
